@@ -81,6 +81,10 @@ def roundtrip(run, sc, idx, g, files, known=None):
             if n1[k] != n2[k]:
                 problems.append("node %s differs: %r vs %r" % (k, n1[k], n2[k]))
                 break
+    for which, r_ in (("original", r1), ("re-parsed", r2)):
+        if len(set(r_)) != len(r_):
+            twice = sorted({x for x in r_ if r_.count(x) > 1})[:3]
+            problems.append("the %s graph holds reference triples more than once (a graph's references are a relation): %r" % (which, twice))
     if r1 != r2:
         problems.append("reference triples differ: lost %r, new %r" % ([x for x in r1 if x not in r2][:3], [x for x in r2 if x not in r1][:3]))
     if models_of(G) != models_of(G2):
